@@ -165,3 +165,12 @@ def rename_after_link(ctx, fa):
     d = dels[0]
     ctx.check(d.key == links[0].value[2] and d.key != links[0].key, R, 'deletes-the-source', ctx.where(fa, d),
               found=T.show(d.key), expected='the source group path, not the destination')
+
+
+_run_core = run
+
+
+def run(ctx):
+    _run_core(ctx)
+    from . import refs_misc
+    refs_misc.run_for(ctx, 'C15')
